@@ -215,7 +215,21 @@ def run(ctx):
             pk = secp256k1.PublicKey(bytes.fromhex(pub_hex), raw=True)
         except Exception:
             pk = None
+        rs_seen = {}
         for q, h in local:
+            try:
+                # "written nowhere" includes written in a derivable form: two signatures of one run over different
+                # digests that share r (a repeated nonce) give the private key away by simple arithmetic
+                sig0 = bytes.fromhex(open(q + ".sig").read().strip())
+                rlen = sig0[3]
+                r_val = sig0[4:4 + rlen]
+                if r_val in rs_seen and rs_seen[r_val] != h:
+                    res["violations"].append({"key": "C19:private-key-derivable", "what": "two signatures of one run "
+                                              "share r (repeated nonce): the run's private key can be computed "
+                                              "from the signature files"})
+                rs_seen[r_val] = h
+            except Exception:
+                pass
             try:
                 sig = bytes.fromhex(open(q + ".sig").read().strip())
                 rsig = pk.ecdsa_deserialize(sig)
